@@ -91,13 +91,20 @@ def sf_fdiv(ex, st, x, y):
     return vfloat(FDIV(xv, yv), or_(nx, ny))
 
 
+def sf_unchanged_old_class(ex, st, cls):
+    """every field of every object of the class that existed at entry is as at entry"""
+    names = [Val(STR, [], py="%s.%s" % (c, f)) for (c, f) in sorted(ex.ctx.reg.fields) if c == cls.py]
+    return sf_unchanged_old(ex, st, *names)
+
+
 def sf_at_entry(ex, st, *a):
     raise OutOfSubset("at_entry is a special form")
 
 
 def install(reg):
     reg.specfuncs.update(isnew=sf_isnew, isold=sf_isold, isnan=sf_isnan, same=sf_same, unchanged=sf_unchanged,
-                         unchanged_except=sf_unchanged_except, unchanged_old=sf_unchanged_old, fdiv=sf_fdiv)
+                         unchanged_except=sf_unchanged_except, unchanged_old=sf_unchanged_old, fdiv=sf_fdiv,
+                         unchanged_old_class=sf_unchanged_old_class)
 
 
 # ---------------------------------------------------------------- folds over float lists
